@@ -186,6 +186,12 @@ func run(t *testing.T, tape *simrt.Tape) *hx.Outcome {
 		// ---- phase 1: Prefetch (possibly concurrent/repeated) and waiters ----
 		var perr []error
 		var ts []*simrt.Task
+		pEnd := time.Duration(-1)
+		type waitRec struct {
+			who        string
+			start, end time.Duration
+		}
+		var waitRecs []waitRec
 		nPref := 1 + s.Tape.Draw("cfg", 2)
 		before := blobReqs()
 		for k := 0; k < nPref; k++ {
@@ -193,6 +199,9 @@ func run(t *testing.T, tape *simrt.Tape) *hx.Outcome {
 				err := l.Prefetch(prefetchSize)
 				s.Event("%s -> ok=%v", t.Label, err == nil)
 				perr = append(perr, err)
+				if pEnd < 0 {
+					pEnd = s.Now() // the instant prefetch ended (successfully or not)
+				}
 			}))
 		}
 		for k := 0; k < 1+s.Tape.Draw("cfg", 2); k++ {
@@ -204,6 +213,7 @@ func run(t *testing.T, tape *simrt.Tape) *hx.Outcome {
 				err := l.WaitForPrefetchCompletion()
 				el := s.Now() - t0
 				waits++
+				waitRecs = append(waitRecs, waitRec{t.Label, t0, s.Now()})
 				s.Event("%s waited %v ok=%v", t.Label, el, err == nil)
 				if el > time.Duration(prefetchTimeout)*time.Second {
 					s.Fail("wait-exceeds-timeout", "WaitForPrefetchCompletion returned after %v of simulated time; the configured prefetch timeout is %ds", el, prefetchTimeout)
@@ -220,6 +230,18 @@ func run(t *testing.T, tape *simrt.Tape) *hx.Outcome {
 		mt.Join(ts...)
 		if s.Failed() {
 			return
+		}
+		// waiting returns when prefetch ends OR FAILS: no wait may outlast the end of prefetch (simulated
+		// time does not advance while tasks are runnable, so "when" is the same instant)
+		for _, w := range waitRecs {
+			lim := pEnd
+			if w.start > lim {
+				lim = w.start
+			}
+			if pEnd >= 0 && w.end > lim {
+				s.Fail("wait-outlasts-prefetch", "%s: WaitForPrefetchCompletion started at %v and returned at %v, but prefetch had ended at %v (prefetch errors: %v)", w.who, w.start, w.end, pEnd, perr)
+				return
+			}
 		}
 		allOK := true
 		for _, e := range perr {
